@@ -108,8 +108,17 @@ const SCENARIOS: &[(&str, &[Act])] = &[
     ("three_way_drops", &[Act::DropOnly, Act::CloneCloneDropDrop, Act::DropOnly]),
 ];
 
+/// scenario index space: i < N = with a retained loom Arc (the count is observable, the payload goes with
+/// the retained Arc); i >= N = scenario i - N where the handles are the only owners (created by
+/// From<T>), so that one of the concurrently released handles has to destroy the payload
+fn scenario_name(idx: usize) -> String {
+    let n = SCENARIOS.len();
+    if idx < n { SCENARIOS[idx].0.to_string() } else { format!("{}_handles_only", SCENARIOS[idx - n].0) }
+}
+
 fn run_scenario(idx: usize, bound: Option<usize>) -> u64 {
-    let (_name, acts) = SCENARIOS[idx];
+    let owned = idx >= SCENARIOS.len();
+    let (_name, acts) = SCENARIOS[idx % SCENARIOS.len()];
     let iters = std::sync::Arc::new(std::sync::atomic::AtomicU64::new(0));
     let it2 = iters.clone();
     let mut b = loom::model::Builder::new();
@@ -117,9 +126,12 @@ fn run_scenario(idx: usize, bound: Option<usize>) -> u64 {
     b.check(move || {
         it2.fetch_add(1, std::sync::atomic::Ordering::Relaxed);
         let drops = Arc::new(AtomicUsize::new(0));
-        let retained = Arc::new(Payload { drops: drops.clone(), value: 42 });
-        // the main thread's handle, created through From<Arc>
-        let root: CArcSome<Payload> = CArcSome::from(retained.clone());
+        let retained = if owned { None } else { Some(Arc::new(Payload { drops: drops.clone(), value: 42 })) };
+        // the main thread's handle, created through From<Arc> / From<T>
+        let root: CArcSome<Payload> = match &retained {
+            Some(r) => CArcSome::from(r.clone()),
+            None => CArcSome::from(Payload { drops: drops.clone(), value: 42 }),
+        };
         let mut joins = Vec::new();
         for a in acts.iter().copied() {
             let h = root.clone();
@@ -132,10 +144,12 @@ fn run_scenario(idx: usize, bound: Option<usize>) -> u64 {
         for j in joins {
             j.join().unwrap();
         }
-        assert_eq!(drops.load(Ordering::SeqCst), 0, "payload dropped although the retained Arc exists");
-        assert_eq!(Arc::strong_count(&retained), 1, "strong count after all handles are gone");
-        drop(retained);
-        assert_eq!(drops.load(Ordering::SeqCst), 1, "payload must be dropped exactly once");
+        if let Some(retained) = retained {
+            assert_eq!(drops.load(Ordering::SeqCst), 0, "payload dropped although the retained Arc exists");
+            assert_eq!(Arc::strong_count(&retained), 1, "strong count after all handles are gone");
+            drop(retained);
+        }
+        assert_eq!(drops.load(Ordering::SeqCst), 1, "payload must be dropped exactly once, when the last handle goes away");
     });
     iters.load(std::sync::atomic::Ordering::Relaxed)
 }
@@ -166,9 +180,11 @@ fn main() {
                 Tier::Quick => Some(3),
                 Tier::Thorough => None,
             };
-            cx.rule("loom", &format!("every interleaving (loom DPOR, preemption bound {:?}; None = unbounded) of 2-3 worker threads plus the main thread, each running a fixed operation list (clone, drop, take, transpose both ways, into_opaque) on its own handle to one shared allocation, over the real arc.rs compiled against loom::sync::Arc; oracle: payload never dropped while a handle is alive, every handle reads the value, final strong count 1, payload dropped exactly once; evaluations = schedules executed", bound));
+            cx.rule("loom", &format!("every interleaving (loom DPOR, preemption bound {:?}; None = unbounded) of 2-3 worker threads plus the main thread, each running a fixed operation list (clone, drop, take, transpose both ways, into_opaque) on its own handle to one shared allocation, over the real arc.rs compiled against loom::sync::Arc; every scenario twice: with a retained Arc (final strong count observable) and with the handles as the only owners (root from From<T>; the payload must be destroyed by whichever handle is released last); oracle: payload never dropped while a handle is alive, every handle reads the value, final strong count 1, payload dropped exactly once; evaluations = schedules executed", bound));
             let mut total = 0u64;
-            for (i, (name, acts)) in SCENARIOS.iter().enumerate() {
+            for i in 0..2 * SCENARIOS.len() {
+                let name = &scenario_name(i);
+                let acts = SCENARIOS[i % SCENARIOS.len()].1;
                 let case = json!({"scenario": name, "index": i, "threads": format!("{:?}", acts), "preemption_bound": bound});
                 let (ok, iters, msg) = child_run(i, bound);
                 total += iters;
@@ -190,7 +206,7 @@ fn main() {
             if ok {
                 CaseOut::ok(iters)
             } else {
-                CaseOut::bad(format!("loom:{}", SCENARIOS[i].0), msg)
+                CaseOut::bad(format!("loom:{}", scenario_name(i)), msg)
             }
         }),
     }];
